@@ -873,6 +873,30 @@ pub fn run(ctx: &mut Ctx) {
 		}
 	}
 	ctx.count("huge_tick_count_scheduling_cases", huge);
+	// monitor 2c: a tweener modulator's transition scheduled for a clock time begins when the clock - a running one - reaches
+	// it, not before, and not at all while the clock is idle (oracle shared with C17: a transition called off before it is due
+	// must never show)
+	let n2c = ctx.t(400u64, 40_000u64);
+	let mut twc = 0u64;
+	for i in 0..n2c {
+		if !ctx.owns("twclock", i) {
+			continue;
+		}
+		let mut r = Rng::for_case(ctx.seed, 507, i);
+		ctx.eval();
+		crate::monitors::set_current(ctx, "twclock", i, "tweener transition on a clock", false);
+		let res = super::guarded(|| crate::props::c17::tweener_cancel_case(&mut r));
+		crate::monitors::clear_current();
+		match res {
+			Ok(Ok(k)) => {
+				twc += k;
+				ctx.distinct_key(0xC05_0007_0000_0000 | (i % 16));
+			}
+			Ok(Err(e)) => ctx.violation("twclock", i, &e, J::Null),
+			Err(p) => ctx.violation("twclock", i, &format!("panic: {}", p.first().map(|p| p.sig()).unwrap_or_default()), J::Null),
+		}
+	}
+	ctx.count("tweener_clock_transition_chunks_checked", twc);
 	// monitor 3
 	let mut rs = ReadStats::default();
 	if ctx.only_case.as_ref().map(|(s, _)| s == "sched" || s == "rsched").unwrap_or(true) {
